@@ -94,6 +94,12 @@ class BaseVars(object):
     def fail(self, msg):
         raise Violation(msg)
 
+    def classify(self, exc):
+        """Called on every exception an obligation catches from the code under test.
+        Under the engine, an exception that stems from a proxy reaching code that cannot
+        take it is not a behaviour of odml: the path ends as unknown."""
+        return None
+
     def known(self, fid, cond):
         """Assume away the input class of an *open* known finding."""
         if fid in self.open_findings:
@@ -147,7 +153,7 @@ def make_symvars_class():
     from crosshair.core import realize, deep_realize
     from crosshair.libimpl.builtinslib import SymbolicInt, LazyIntSymbolicStr
     from crosshair.tracers import NoTracing
-    from crosshair.util import IgnoreAttempt, UnknownSatisfiability
+    from crosshair.util import IgnoreAttempt, UnknownSatisfiability, CrosshairUnsupported
 
     class SymVars(BaseVars):
         real = False
@@ -209,6 +215,21 @@ def make_symvars_class():
         def assume(self, cond):
             if not cond:
                 raise IgnoreAttempt("assumption")
+
+        def classify(self, exc):
+            with NoTracing():
+                if isinstance(exc, (TypeError, AttributeError, AssertionError)):
+                    try:
+                        text = str(exc)
+                    except BaseException:  # noqa
+                        text = ""
+                    marks = ("Symbolic", "LazyInt", "ShellMutable", "SimpleDict", "LinearSet",
+                             "SliceView", "SequenceConcatenation", "crosshair",
+                             "expected string or bytes-like object",
+                             "__hash__ method should return an integer")
+                    if any(m in text for m in marks):
+                        raise CrosshairUnsupported("proxy intolerance: " + text[:200])
+            return None
 
         def realized(self):
             """Concrete values of everything handed out on this path.
